@@ -1,5 +1,6 @@
 SPECIFICATION MCSpec
 CONSTANTS
+  AllSchedules = FALSE
   PermuteModules = FALSE
   NB0 = {0, 1, 2}
   Variants = {"none", "same", "ext", "extm0", "trunc", "swap", "rename", "recv", "ptype", "pcount", "ret", "cc", "argname", "vis", "doc"}
